@@ -762,7 +762,12 @@ def parse(x):
         raise opparse.Location(x, "<string>", 0, 0).syntax_error(
             "Empty selector"
         )
-    return evaluate(tree)
+    rval = evaluate(tree)
+    if not isinstance(rval, Selector):
+        raise tree.location.syntax_error(
+            "A selector cannot be a sequence at the top level"
+        )
+    return rval
 
 
 def _find_eval_env(s, fr, skip):
